@@ -271,6 +271,20 @@ func runRefCase(id int, c refCase, prog []string) (o *refObs) {
 				return o
 			}
 			ref = r2
+			// several values in gob form at once: an encoding that is kept while another reference is
+			// encoded still decodes to the reference it was made from
+			b1, e1 := ref.GobEncode()
+			other := spec.MustCreateRef("http://other.example/o.json#/definitions/other")
+			b2, e2 := other.GobEncode()
+			var r3, r4 spec.Ref
+			if e1 != nil || e2 != nil || r3.GobDecode(b1) != nil || r4.GobDecode(b2) != nil {
+				o.OK, o.Err = false, "direct GobEncode / GobDecode failed"
+				return o
+			}
+			if r3.String() != ref.String() || flagsOf(&r3) != flagsOf(&ref) || r4.String() != other.String() {
+				o.OK, o.Err = false, ascii(fmt.Sprintf("a gob encoding kept while another reference was encoded decodes to %q, made from %q", r3.String(), ref.String()))
+				return o
+			}
 		}
 		check(op, &ref)
 	}
